@@ -1,4 +1,5 @@
 import Wasp.Generated.Facts
+import Wasp.Model.Broker
 /-! Source facts the C03 model relies on — read from the Go source on every run by /verif/extract
     (a fact that no longer holds makes these obligations fail). -/
 namespace Wasp.SourceFacts.C03
@@ -12,5 +13,11 @@ theorem writerSkipsUnregistered : Facts.writerSkipsUnregistered = true := by dec
 
 /-- a wrong-type acknowledgement leaves the entry in place -/
 theorem ackTypeCheckedBeforeDelete : Facts.ackTypeCheckedBeforeDelete = true := by decide
+
+/-- the writer's identifier pool is the model's: NewWriter's bounds, the first identifier (0) taken out of circulation;
+    every identifier it can hand out fits the 16 bits of the wire format -/
+theorem writerPoolIsModelPool :
+    Wasp.Broker.initPool = (Wasp.IdPool.get (Wasp.IdPool.new Facts.midPoolMin Facts.midPoolMax)).1 ∧
+    0 ≤ Facts.midPoolMin ∧ Facts.midPoolMax ≤ 65535 := by decide
 
 end Wasp.SourceFacts.C03
